@@ -17,7 +17,7 @@
    Strings are rendered WITHOUT white space (token streams are compared after removing
    it on both sides). *)
 From Coq Require Import String Ascii NArith List Bool.
-From Typify Require Import Base.Json IR.TypeIR Algo.Emit.
+From Typify Require Import Base.Json Spec.Schema IR.TypeIR Algo.Emit.
 Import ListNotations.
 Close Scope string_scope.
 Open Scope list_scope.
@@ -138,6 +138,41 @@ Section Cache.
     | None => convert_object s
     end.
 End Cache.
+
+(* [strip] made concrete on the schema AST of Spec/Schema.v: the StripMetadata visitor of
+   conversions.rs (metadata := None at the node, then schemars' visit_schema_object, which descends
+   into EVERY subschema position: items (single and tuple), additionalItems, properties.*,
+   additionalProperties, allOf / anyOf / oneOf members, not).  The metadata this AST represents are
+   `default` and `title`; description, examples, readOnly ... are already erased by the translator;
+   propertyNames, patternProperties, contains, if/then/else are not represented in Spec/Schema.v (the
+   per-run position-complete occurrences of py/props/c14.py cover them on the real code). *)
+Fixpoint strip_annotations (s : schema) : schema :=
+  match s with
+  | SBool b => SBool b
+  | SObj ty fmt enum cst nv sv ik items ai mni mxi uq props req ap mnp mxp allo anyo oneo no ref _ _ =>
+      let smap := map strip_annotations in
+      SObj ty fmt enum cst nv sv ik (smap items) (option_map strip_annotations ai) mni mxi uq
+           (map (fun kv => (fst kv, strip_annotations (snd kv))) props) req
+           (option_map strip_annotations ap) mnp mxp
+           (option_map smap allo) (option_map smap anyo) (option_map smap oneo)
+           (option_map strip_annotations no) ref None None
+  end.
+
+(* no annotation left at ANY position of the AST *)
+Fixpoint annotation_free (s : schema) : bool :=
+  match s with
+  | SBool _ => true
+  | SObj _ _ _ _ _ _ _ items ai _ _ _ props _ ap _ _ allo anyo oneo no _ dflt title =>
+      let all := forallb annotation_free in
+      let oall := fun o => match o with Some l => all l | None => true end in
+      let o1 := fun o => match o with Some x => annotation_free x | None => true end in
+      match dflt, title with
+      | None, None =>
+          all items && o1 ai && forallb (fun kv => annotation_free (snd kv)) props && o1 ap &&
+          oall allo && oall anyo && oall oneo && o1 no
+      | _, _ => false
+      end
+  end.
 
 (* ---------------------------------------------------------------- rendering of types *)
 Definition strip_ws (s : ustring) : ustring := filter (fun c => negb (N.eqb c 32)) s.
